@@ -256,6 +256,20 @@ Definition k_validator (k : dkind) : validator :=
 Definition k_vy (k : dkind) : input -> bool :=
   if k_batch k then validate_y_batch else validate_y_stream.
 
+(** the four ways a detector of the library uses the validators for X:
+    plain streaming (KdqTreeStreaming, PCACD), streaming with the univariate guard (ADWIN, CUSUM,
+    PageHinkley), plain batch (KdqTreeBatch, HDDDM, NNDVI), batch with CDBD's early guard *)
+Definition user_early (k : dkind) : input -> bool :=
+  match k with KBatchCdbd => cdbd_guard | _ => fun _ => false end.
+Definition user_validator (k : dkind) : validator :=
+  match k with
+  | KStream => validate_X_stream
+  | KStreamUni => validate_univariate
+  | KBatch | KBatchCdbd => validate_X_batch
+  end.
+Definition user_coerce (k : dkind) : input -> Z * Z :=
+  if k_batch k then coerce_batch else coerce_stream.
+
 Definition shape_eqb (a b : Z * Z) : bool := (fst a =? fst b) && (snd a =? snd b).
 
 (** invocations inside one call: (is the user's X, descriptor, returned shape if it returned) *)
